@@ -62,7 +62,8 @@ def _mk(prop, label, families, oracle, rule, pinned=()):
                     continue
                 for kind, text in problems:
                     # pinned / corpus documents have stable names -> stable keys for known_findings.json; generated ones are keyed by content
-                    key = f"{label}:{name}:{kind}" if name.startswith(("pinned:", "corpus:")) else f"{label}:{kind}:{name}"
+                    # a kind "class:<signature>" identifies a root cause by its signature, whatever the document (one known-findings entry)
+                    key = f"{label}:{kind}" if kind.startswith("class:") else f"{label}:{name}:{kind}" if name.startswith(("pinned:", "corpus:")) else f"{label}:{kind}:{name}"
                     if not any(f.key == key for f in res.findings):
                         res.findings.append(Finding(key=key, text=f"{name}: {text}", replay=dict(doc=doc, name=name, options=kw, kind=kind), confirmed=True))
                 if not problems and len(res.samples) < 2:
@@ -299,7 +300,10 @@ def _noise_oracle(name, doc, out, exc, kw):
     probs = []
     base = out
     # hand-written documents get every kind of noise, one at a time; generated ones three random kinds, three times
-    for kinds, noisy in noise_variants(doc, rnd, each_kind=name.startswith("corpus:")):
+    from bounded import corpus
+
+    pinned_noisy = corpus.PINNED_NOISY.get(name[len("pinned:"):]) if name.startswith("pinned:") else None
+    for kinds, noisy in ([(["wrapper"], pinned_noisy)] if pinned_noisy else noise_variants(doc, rnd, each_kind=name.startswith("corpus:"))):
         try:
             o2 = _convert(noisy, **kw)
         except Exception as e:  # noqa
@@ -309,12 +313,18 @@ def _noise_oracle(name, doc, out, exc, kw):
         if exc is not None:
             probs.append(("noise-fixes-conversion", f"with noise {kinds} the conversion succeeds although the clean document raises {type(exc).__name__}"))
             continue
-        if not oracles.equivalent_modulo_gradients(o2, base):
-            probs.append(("noise-changes-output:" + "+".join(sorted(kinds)), f"noise {kinds} changes the converted document"))
+        gap = oracles.gradient_number_gap(o2, base)
+        if gap is None or gap > 2e-4:
+            probs.insert(0, ("noise-changes-output:" + "+".join(sorted(kinds)), f"noise {kinds} changes the converted document"))
+        elif gap > 3e-6:
+            # more than the last rounded digit, still only gradient numbers and tiny: the double rounding of F20 (a gradient is rounded in
+            # place when the traversal reaches it; shapes visited later derive their transformed copy from the rounded one, and noise
+            # that changes a shape's depth changes whether it is visited before or after)
+            probs.append(("class:gradient-double-rounding", f"noise {kinds} changes gradient parameters by {gap:.2g} (relative), beyond the last rounded digit"))
     return probs[:1]
 
 
-_mk("C14", "noise", ("structural", "clipped", "cascade", "gradients"), _noise_oracle, "metamorphic: 3 noise insertions (comments, PIs, title/desc/metadata, foreign elements / attributes, id-less symbols, attribute-less wrapper groups, whitespace, XML declaration) per document; outputs equal up to gradient ids, defs order, last digits of gradient numbers")
+_mk("C14", "noise", ("structural", "clipped", "cascade", "gradients"), _noise_oracle, "metamorphic: 3 noise insertions (comments, PIs, title/desc/metadata, foreign elements / attributes, id-less symbols, attribute-less wrapper groups, whitespace, XML declaration) per document; outputs equal up to gradient ids, defs order, last digits of gradient numbers", pinned=("gradient_double_rounding",))
 
 
 # ------------------------------------------------------------------------------------------------ C19 viewBox clipping / bounding boxes
